@@ -27,6 +27,8 @@ pub fn check(tier: Tier) -> Check {
         // scripts that end in a transport fault (end-of-stream, read error - permanent or transient - of
         // three io::ErrorKinds): run() returns under every discipline alike
         Part::new("C16/disciplines", json!({"depth": tier.pick(3, 4), "pairs": false, "faults": true}), 0, tier.pick(45, 600)),
+        // an extra poll of the context task while a fragment of the next packet sits behind a big one
+        Part::new("C16/after-big", json!({"sizes": [9000, 70_000]}), 0, 120),
     ];
     Check {
         also_rel: true,
@@ -114,6 +116,9 @@ fn run_script(
 }
 
 pub fn scenario(name: &str, params: &Value) -> Scenario {
+    if name == "C16/after-big" {
+        return super::c03::after_big("C16", name.to_string(), params.clone());
+    }
     let depth = params["depth"].as_u64().unwrap_or(3) as usize;
     let pairs = params["pairs"].as_bool().unwrap_or(false);
     let params = params.clone();
